@@ -49,6 +49,8 @@ def run_cfg(chk, facts, cfg):
     if not chk.anchor('Interval+constructors' + sfx, m if m.ok() else None):
         chk.notes.extend(m.problems)
         return
+    from ..overrides import obligation as no_overrides
+    no_overrides(chk, PID, facts, sfx, [m.path], 'Clone / PartialEq / Hash / conversions of Interval')
     counts = {'fallible': 0, 'bodies': 3}
     TWO, UP, LO = (m.kinds[k][0] for k in ('two', 'upper', 'lower'))
 
